@@ -16,3 +16,6 @@ Definition process_one_trace_now (overwrite : bool) (fname : bytes) (incs : list
 Definition build_trace_now (out : bytes) (out_exists : bool) (sources : list path) (writes : bool)
            (chunks : list Z) (fail_at : option nat) : list (op Z) :=
   build_trace zsum formatters_order out out_exists sources writes chunks fail_at.
+
+Definition process_many_trace_now (overwrite : bool) (files : list (cart_in (D:=Z))) (fail_at : option nat) : list (op Z) :=
+  process_many_trace zsum formatters_order overwrite files fail_at.
